@@ -1,0 +1,11 @@
+//go:build !verif
+
+package method_evaluator
+
+import "ti/base"
+
+func verifBind(m *MethodEvaluator, class string, methodT *base.T, argTs []*base.T) func(*error) {
+	return func(*error) {}
+}
+
+func verifCall(m *MethodEvaluator) func() { return func() {} }
